@@ -50,6 +50,11 @@ subcategory: P
 match: contains("MUSEUM") and any(r.sku == "Z9" and r.amount == 1234.56 for r in skus)
 category: SkuCat
 subcategory: S
+
+[Dated]
+match: contains("MUSEUM") and any(r.date == date for r in dated)
+category: DatedCat
+subcategory: D
 '''
 RULES_SPECIFIC = RULES.replace('[Large]\nmatch: big', '[Large]\nmatch: big or contains("COFFEE ROASTERS WHOLESALE")')
 
@@ -116,6 +121,10 @@ def build(setup):
         b.write('data/skus.csv', 'Date;Text;Sku;Amount\n01/01/2025;Big thing;Z9;1.234,56\n01/02/2025;Other;Y8;7,50\n')
         sources.append({'name': 'skus', 'file': 'data/skus.csv', 'format': '{date:%m/%d/%Y}, {description}, {sku}, {amount}', 'delimiter': ';', 'decimal_separator': ',',
                         'supplemental': True})
+    if setup.get('supp_day_suffix'):
+        # dates written with a day name after them, as some banks do ("01/05/2025  Sun"): read like in a transaction source
+        b.write('data/dated.csv', 'Date,Ref,Amount\n03/02/2025  Sun,R1,20.00\n')
+        sources.append({'name': 'dated', 'file': 'data/dated.csv', 'format': '{date:%m/%d/%Y}, {ref}, {amount}', 'columns': {'description': '{ref}'}, 'supplemental': True})
     if setup.get('supp_euro'):
         # a second supplemental source with its OWN delimiter and decimal separator
         b.write('data/prices.csv', 'Date;Sku;Amount\n01/01/2025;A1;12,25\n01/02/2025;B2;7,50\n')
@@ -149,6 +158,8 @@ def classify(desc, amount, setup):
         cand.append(('Priced', 'Priced', 'P', [], (50, 0, 0, 0)))
     if setup.get('supp_named') and 'MUSEUM' in desc:
         cand.append(('Sku', 'SkuCat', 'S', [], (50, 1, 0, 6)))
+    if setup.get('supp_day_suffix') and 'MUSEUM' in desc:
+        cand.append(('Dated', 'DatedCat', 'D', [], (50, 1, 1, 6)))
     tags = sorted({t for c in cand for t in c[3]})
     if not cand:
         return None, tags
@@ -282,7 +293,7 @@ def main():
                 if key == 'decimal_separator' and v == ',' and s[src]['delimiter'] is None:
                     s[src]['delimiter'] = ';'
                 check(s, '%s.%s:%r' % (src, key, v))
-    for key, v in (('rule_mode', 'most_specific'), ('views', True), ('supplemental', False), ('specific_rules', True), ('supp_euro', True), ('supp_named', True), ('supp_missing', True), ('supp_regex', True)):
+    for key, v in (('rule_mode', 'most_specific'), ('views', True), ('supplemental', False), ('specific_rules', True), ('supp_euro', True), ('supp_named', True), ('supp_missing', True), ('supp_regex', True), ('supp_day_suffix', True)):
         s = copy.deepcopy(base)
         s[key] = v
         check(s, '%s:%r' % (key, v))
